@@ -21,6 +21,10 @@ type Clause struct {
 	File string
 	Line int
 	Name string // optional label: "ensures[label] ..."
+	// ObjInv: an object-invariant clause ("objinv e"): assumed on entry and proved at every return when the
+	// method itself is verified; at call sites it is assumed after the call but not demanded before it (the
+	// invariant speaks about unexported state that only the declaring package's verified code can write)
+	ObjInv bool
 }
 
 type LoopSpec struct {
@@ -126,7 +130,7 @@ func newSpecs() *Specs {
 
 var ghostSetRe = regexp.MustCompile(`^\$(\w+)\s*:=\s*(.+)$`)
 
-var keywordRe = regexp.MustCompile(`^(package|func|requires|ensures|modifies|loop|trusted|inline|noinline|dispatch|dyncall|nonblocking|immutable|ghost|maypanic|pure|uninterp|lemma|global|region|from|to|params|callsite|opaque|reveal)\b`)
+var keywordRe = regexp.MustCompile(`^(package|func|requires|ensures|objinv|modifies|loop|trusted|inline|noinline|dispatch|dyncall|nonblocking|immutable|ghost|maypanic|pure|uninterp|lemma|global|region|from|to|params|callsite|opaque|reveal)\b`)
 
 // expandKey turns "(*T).M" / "(T).M" / "F" into the ssa qualified name for pkgPath.
 // Keys that already contain a '/' or a '.' before the first '(' are taken as written.
@@ -291,6 +295,17 @@ func (sp *Specs) ParseFile(path string, defaultPkg string) {
 			}
 			cur = &Contract{Key: k, PkgPath: pkg, File: path, Line: rc.line, Loops: map[int]*LoopSpec{}, ParamNames: pnames}
 			sp.Contracts[k] = cur
+		case "objinv":
+			if cur == nil {
+				sp.errf(path, rc.line, "objinv outside func")
+				continue
+			}
+			if c := mkClause(rest, rc.line); c != nil {
+				c.ObjInv = true
+				cur.Requires = append(cur.Requires, c)
+				c2 := *c
+				cur.Ensures = append(cur.Ensures, &c2)
+			}
 		case "requires", "ensures":
 			c := mkClause(rest, rc.line)
 			if c == nil {
